@@ -506,7 +506,7 @@ def lad_frame(rng, exact, iso=False, ratio=None, max_aspect=None):
 QUARTER_ROTS = [[1, 0, 0], [0, 1, 0], [-1, 0, 0], [0, -1, 0]]
 
 
-def lad_region(rng, kind, frame, exact):
+def lad_region(rng, kind, frame, exact, rot=None):
     """-> (spec, special) : region centred on the frame centre, extents = eighths of the frame sizes;
     `special` = lattice points (in sixteenths of the sizes, relative to the centre) on the boundary."""
     cx, cy, Sx, Sy = frame
@@ -514,7 +514,7 @@ def lad_region(rng, kind, frame, exact):
     if kind == "rect":
         jw, jh = 2 * rng.randint(1, 8), 2 * rng.randint(1, 8)     # width = jw/8 * Sx
         w, h = Fraction(jw, 8) * Sx, Fraction(jh, 8) * Sy
-        rot = rng.choice(QUARTER_ROTS) if exact else pick_rot(rng)
+        rot = rot or (rng.choice(QUARTER_ROTS) if exact else pick_rot(rng))
         spec = ["rect", qx(cx - w / 2), qx(cx + w / 2), qx(cy - h / 2), qx(cy + h / 2)] + rot
         a, b = (jw, jh) if rot[1] == 0 else (jh * Sy / Sx, jw * Sx / Sy)   # half extents in sixteenths after a quarter turn
         if Fraction(a).denominator == 1 and Fraction(b).denominator == 1 and max(a, b) <= 64:
@@ -555,7 +555,7 @@ def lad_region(rng, kind, frame, exact):
                     sp += [(3 * a // 5, 4 * b // 5), (-4 * a // 5, 3 * b // 5)]
         else:
             rx, ry = Fraction(rng.randint(1, 16), 8) * Sx, Fraction(rng.randint(1, 16), 8) * Sy
-            rot = pick_rot(rng)
+            rot = rot or pick_rot(rng)
         spec = ["ellipse", qx(cx), qx(cy), qx(rx), qx(ry)] + rot
     elif kind == "range":
         ori = rng.choice("xy")
@@ -655,10 +655,10 @@ def lad_points_band(rng, spec, frame, n_bnd=24, n_rand=14, specials=True):
 LAD_KINDS = ("rect", "ellipse", "poly", "circle", "annulus", "range", "rect", "poly", "ellipse")
 
 
-def lad_contains_case(rng, kind, exact):
+def lad_contains_case(rng, kind, exact, rot=None):
     iso = kind in ("circle", "annulus")
     frame = lad_frame(rng, exact, iso=iso)
-    spec, special = lad_region(rng, kind, frame, exact)
+    spec, special = lad_region(rng, kind, frame, exact, rot=rot)
     if not spec_rep(spec):
         return None
     if exact:
@@ -737,11 +737,11 @@ def final_spec(spec, ops):
     return out
 
 
-def lad_ops_case(rng, kind):
+def lad_ops_case(rng, kind, first=None, ratio=None, n_bnd=20):
     iso = kind in ("circle", "annulus")
     # polygons: |centre| <= 2^30 * smallest size keeps the area of every non-degenerate lattice polygon far above
     # the rounding threshold of center() (1e-12 extent^2 + 4 n eps |v| extent after F23)
-    ratio = 30 if kind == "poly" else 34
+    ratio = ratio if ratio is not None else (30 if kind == "poly" else 34)
     frame = lad_frame(rng, False, iso=iso, ratio=ratio, max_aspect=20)
     cx, cy, Sx, Sy = frame
     spec, _ = lad_region(rng, kind, frame, False)
@@ -750,8 +750,8 @@ def lad_ops_case(rng, kind):
     lim = min(Sx, Sy) * 2 ** ratio
     cands = [c for c in LAD_CENTRES if abs(c) <= lim]
     cands = cands + cands[-4:]
-    ops = []
-    for _ in range(rng.randint(1, 4)):
+    ops = list(first or [])
+    for _ in range(rng.randint(0 if first else 1, 4 - len(ops))):
         c = rng.random()
         if c < 0.5:
             # target = ladder centre + an odd number of eighths of the size (many significant bits: a
@@ -775,7 +775,7 @@ def lad_ops_case(rng, kind):
         fc = poly_center_frac([(frac(v[0]), frac(v[1])) for v in fin[1:]])
         fcx, fcy = float(fc[0]), float(fc[1])
     fframe = (Fraction(fcx), Fraction(fcy), Sx, Sy)
-    pts = lad_points_band(rng, fin, fframe, n_bnd=20, n_rand=12, specials=False)
+    pts = lad_points_band(rng, fin, fframe, n_bnd=n_bnd, n_rand=12, specials=False)
     # around the centres visited earlier (the region must have left them)
     for o in [["move", qx(cx), qx(cy)]] + [o for o in ops if isinstance(o, list) and o[0] == "move"][:-1]:
         pts.append((fl(o[1]) + 0.3 * float(Sx), fl(o[2]) - 0.2 * float(Sy)))
@@ -1013,7 +1013,13 @@ class Contains(Family):
             else:
                 yield [spec, g, qx(eps), exact, rng.choice(["bcast", "bcast", "meshgrid", "bcast-x"])]
         # magnitude / offset ladder: exact lattice cases (boundary included) and arbitrary-double band cases
-        nl = 1000 if tier == "quick" else 9000
+        for i, (c, s) in enumerate(ALL_ROTS):
+            for k in (0,) if tier == "quick" else (0, 1, -2):
+                for kind in ("rect", "ellipse"):
+                    case = lad_contains_case(rng, kind, False, rot=[qx(c), qx(s), k])
+                    if case is not None:
+                        yield case
+        nl = 800 if tier == "quick" else 8000
         for i in range(nl):
             case = lad_contains_case(rng, LAD_KINDS[i % len(LAD_KINDS)], exact=(i % 2 == 0))
             if case is not None:
@@ -1183,7 +1189,26 @@ class Ops(Family):
                 if tier == "thorough":
                     yield self.finish(rng, spec, [["move", 3, -2], ["rot", qx(c), qx(s), 1], ["move", 0, 0]], "dy")
         # magnitude / offset ladder
-        for i in range(600 if tier == "quick" else 5000):
+        for i, (c, s) in enumerate(ALL_ROTS):
+            for kind in ("poly", ("rect", "ellipse")[i % 2]) if tier == "quick" else ("poly", "rect", "ellipse", "poly"):
+                case = lad_ops_case(rng, kind, first=[["rot", qx(c), qx(s), 0]])
+                if case is not None:
+                    yield case
+        # small turns (2 atan 2^-k, both directions) away from every quarter turn, region near the origin
+        # relative to its size (tight rounding bound): a rotate_to that is skipped, or a branch that is taken,
+        # for an angle below an absolute threshold moves the boundary by angle * size
+        for m in range(4):
+            for k in (8, 16, 24, 28, 30, 32, 34, 40, 50):
+                for sg in (1, -1):
+                    t = Fraction(1, 2 ** k)
+                    c, s = turn(((1 - t * t) / (1 + t * t), sg * 2 * t / (1 + t * t)), m)
+                    qc, qs = turn((Fraction(1), Fraction(0)), m)
+                    first = ([["rot", qx(qc), qx(qs), 0]] if m else []) + [["rot", qx(c), qx(s), 0]]
+                    for kind in ("poly",) if tier == "quick" else ("poly", "rect", "ellipse", "poly"):
+                        case = lad_ops_case(rng, kind, first=first, ratio=4, n_bnd=40)
+                        if case is not None:
+                            yield case
+        for i in range(400 if tier == "quick" else 4500):
             case = lad_ops_case(rng, LAD_KINDS[i % len(LAD_KINDS)])
             if case is not None:
                 yield case
@@ -1560,6 +1585,8 @@ THEOREMS = [
     "C08.restore_same",
     "C08.shape_independent",
     "C08.projected_chunking",
+    "C08.contains_scale_equivariant",
+    "C08.contains_translate_equivariant",
 ]
 
 PROP = Property(
